@@ -384,29 +384,42 @@ def main():
     vio_lines = []
     n_rep = 0
     if violations:
-        # shrink the first few, decide spec violation vs broken tie
-        for c, r, diffs in violations[:3]:
+        # violations of the property's own clauses first (one per distinct clause set), shrunk;
+        # if only model-specific detail differs, the tie is broken: search, else no-failing-input-found
+        def is_spec(c, r, diffs):
+            if not hasattr(prop, "spec_violation"):
+                return True
+            return bool(prop.spec_violation(from_text(c["input"]), from_text(r["impl"]), from_text(r["model"]), diffs))
+        spec_v, seen_cl = [], set()
+        for c, r, diffs in violations:
+            if is_spec(c, r, diffs) and tuple(diffs) not in seen_cl:
+                seen_cl.add(tuple(diffs))
+                spec_v.append((c, r, diffs))
+        for c, r, diffs in spec_v[:3]:
             small = shrink(prop, prop_id, c, tier, args.seed)
-            spec = prop.spec_violation(from_text(small["input"]), from_text(small["impl"]), from_text(small["model"]), small["diffs"]) \
-                if hasattr(prop, "spec_violation") else True
-            if spec:
-                n_rep += 1
-                p = write_replay(prop_id, n_rep, {"property": prop_id, "kind": "failing-input", "clauses": small["diffs"],
-                                                 "input": small["input"], "digest_size": small.get("digest_size"), "opts": small.get("opts"),
-                                                 "impl": small["impl"], "model": small["model"], "case_kind": c.get("kind")})
+            if not is_spec(small, small, small["diffs"]):
+                small = dict(c, impl=r["impl"], model=r["model"], diffs=diffs)
+            n_rep += 1
+            p = write_replay(prop_id, n_rep, {"property": prop_id, "kind": "failing-input", "clauses": small["diffs"],
+                                             "input": small["input"], "digest_size": small.get("digest_size"), "opts": small.get("opts"),
+                                             "impl": small["impl"], "model": small["model"], "case_kind": c.get("kind")})
+            vio_lines.append(f"VIOLATION property={prop_id} replay={p}")
+        if not spec_v:
+            c, r, diffs = violations[0]
+            found = prop.search(rng, tier) if hasattr(prop, "search") else None
+            n_rep += 1
+            if found:
+                p = write_replay(prop_id, n_rep, {"property": prop_id, "kind": "failing-input-from-search", **found})
                 vio_lines.append(f"VIOLATION property={prop_id} replay={p}")
             else:
-                found = prop.search(rng, tier) if hasattr(prop, "search") else None
-                n_rep += 1
-                if found:
-                    p = write_replay(prop_id, n_rep, {"property": prop_id, "kind": "failing-input-from-search", **found})
-                    vio_lines.append(f"VIOLATION property={prop_id} replay={p}")
-                else:
-                    p = write_replay(prop_id, n_rep, {"property": prop_id, "kind": "broken-correspondence",
-                                                     "broken": f"corr:{prop_id}:" + ",".join(small["diffs"]),
-                                                     "input": small["input"], "digest_size": small.get("digest_size"), "opts": small.get("opts"),
-                                                     "impl": small["impl"], "model": small["model"]})
-                    vio_lines.append(f"VIOLATION property={prop_id} replay={p} no-failing-input-found")
+                p = write_replay(prop_id, n_rep, {"property": prop_id, "kind": "broken-correspondence",
+                                                 "broken": f"corr:{prop_id}:" + ",".join(diffs),
+                                                 "note": "the implementation no longer matches the model the theorems are about, on an observable "
+                                                         "the property does not fix; no input violating the property's own clauses was found",
+                                                 "disagreeing_cases": len(violations),
+                                                 "input": c["input"], "digest_size": c.get("digest_size"), "opts": c.get("opts"),
+                                                 "impl": r["impl"], "model": r["model"]})
+                vio_lines.append(f"VIOLATION property={prop_id} replay={p} no-failing-input-found")
     failed_obl = [o for o in obligations if not o["ok"] and not o["name"].startswith(f"corr:{prop_id}:model-vs")]
     if failed_obl and not vio_lines:
         # a theorem / gate / infrastructure obligation no longer checks: search the implementation directly
